@@ -16,7 +16,7 @@
 #include <string.h>
 #include <stdarg.h>
 
-#define RSV_NCLS 56
+#define RSV_NCLS 64
 
 enum rsv_verdict {
 	RSV_PASS = 0,
